@@ -188,3 +188,145 @@ S('c14-guard-inverted', ['C14', 'C15', 'C11'], [(EMPTIER,
 S('c14-predicate-startswith', ['C14'], [('trashcli/empty/parse_reply.py',
   "return reply[0:1].lower() == 'y'", "return reply.lower().startswith('y')")],
   'equivalent reply predicate')
+
+# ------------------------------------------------------------------ C05
+JANITOR = 'trashcli/put/janitor.py'
+PERSISTER = 'trashcli/put/janitor_tools/info_file_persister.py'
+PUTDIR = 'trashcli/put/janitor_tools/put_trash_dir.py'
+CHECKER = 'trashcli/put/janitor_tools/trash_dir_checker.py'
+VOLREADER = 'trashcli/put/trash_dir_volume_reader.py'
+F('c05-split-write', {'C05': ['R05.2']}, [(FS,
+  "        os.write(file_handle, content)\n        os.close(file_handle)",
+  "        os.write(file_handle, content[:13])\n        os.write(file_handle, content[13:])\n        os.close(file_handle)")],
+  'info content written by two os.write calls')
+F('c05-gate-after-mkdirs', {'C05': ['R05.3']}, [(JANITOR,
+  """        can_be_used = self.trashing_checker.file_could_be_trashed_in(
+            trashee, candidate, environ)
+        if isinstance(can_be_used, Left):
+            return make_error(can_be_used)
+
+        dirs_creation = self.dir_creator.make_candidate_dirs(candidate)
+        if isinstance(dirs_creation, Left):
+            return make_error(dirs_creation)
+""",
+  """        dirs_creation = self.dir_creator.make_candidate_dirs(candidate)
+        if isinstance(dirs_creation, Left):
+            return make_error(dirs_creation)
+
+        can_be_used = self.trashing_checker.file_could_be_trashed_in(
+            trashee, candidate, environ)
+        if isinstance(can_be_used, Left):
+            return make_error(can_be_used)
+""")],
+  'trash directories are created before the same-volume gate is consulted')
+F('c05-realpath-dropped', {'C05': ['R05.3'], 'C07': ['R07.4']}, [(VOLREADER,
+  "        return self.fs.volume_of(\n            self.fs.realpath(norm_trash_dir_path))",
+  "        return self.fs.volume_of(norm_trash_dir_path)")],
+  'volume of the trash dir computed without resolving symlinks')
+F('c05-move-then-info', {'C05': ['R05.1']}, [(JANITOR,
+  """        persisting_job = self.persister.try_persist(trashinfo_data.value())
+        trashed_file = self.executor.execute(persisting_job, log_data)
+        trashed = self.trash_dir.try_trash(trashee.path, trashed_file)
+""",
+  """        data = trashinfo_data.value()
+        import os
+        planned = TrashedFile(os.path.join(data.info_dir_path, data.basename + '.trashinfo'))
+        trashed = self.trash_dir.try_trash(trashee.path, planned)
+        persisting_job = self.persister.try_persist(data)
+        trashed_file = self.executor.execute(persisting_job, log_data)
+""")],
+  'payload moved before its .trashinfo is persisted')
+F('c05-gate-always-ok', {'C05': ['R05.3']}, [(CHECKER,
+  "        if not same_volume:\n            return Left(DifferentVolumes(trash_dir_volume, trashee.volume))\n",
+  "")],
+  'same-volume gate always passes')
+F('c05-fallback-without-env', {'C05': ['R05.3'], 'C07': ['R07.6']}, [(CHECKER,
+  "        if environ.get('TRASH_ENABLE_HOME_FALLBACK', None) == \"1\":\n            return make_ok()\n        return Left(HomeFallBackNotEnabled())",
+  "        return make_ok()")],
+  'home fallback gate ignores TRASH_ENABLE_HOME_FALLBACK')
+S('c05-executor-next', ['C05', 'C01', 'C04'], [('trashcli/put/jobs.py',
+  """        for status in job:
+            self.logger.log_multiple(status.logs(), log_data)
+            if status.has_succeeded():
+                return status.result()
+        raise ValueError("Should not happen!")""",
+  """        for status in job:
+            self.logger.log_multiple(status.logs(), log_data)
+            if not status.has_succeeded():
+                continue
+            return status.result()
+        raise ValueError("Should not happen!")""")],
+  'executor loop rewritten with continue')
+
+# ------------------------------------------------------------------ C01
+TRASHER = 'trashcli/put/trasher.py'
+FILE_TRASHER = 'trashcli/put/file_trasher.py'
+DIRMAKER = 'trashcli/put/dir_maker.py'
+F('c01-no-dot-guard', {'C01': ['R01.2']}, [(TRASHER,
+  "        if should_skipped_by_specs(path):", "        if False and should_skipped_by_specs(path):")],
+  'dot-entry refusal disabled')
+F('c01-exists-not-lexists', {'C01': ['R01.2'], 'C18': ['R18.1']}, [(TRASHER,
+  "        if not self.fs.lexists(path):", "        if not self.fs.exists(path):")],
+  'presence decided by exists (dangling symlink = absent)')
+F('c01-no-release', {'C01': ['R01.3']}, [(PUTDIR,
+  "            self.fs.remove_file(paths.trashinfo_path)\n", "")],
+  'failed move leaves the .trashinfo behind')
+F('c01-handler-narrowed', {'C01': ['R01.3'], 'C17': ['R17.2']}, [(PUTDIR,
+  "        except (IOError, OSError) as error:", "        except FileNotFoundError as error:")],
+  'only FileNotFoundError of the move is handled')
+F('c01-either-untested', {'C01': ['R01.4']}, [(JANITOR,
+  "        if isinstance(trashed, Left):\n            return make_error(trashed)\n", "")],
+  'success reported without testing the result of the move')
+F('c01-either-untested-dirs', {'C01': ['R01.4']}, [(JANITOR,
+  "        if isinstance(dirs_creation, Left):\n            return make_error(dirs_creation)\n", "")],
+  'directory creation failure ignored')
+F('c01-continue-after-success', {'C01': ['R01.5']}, [(FILE_TRASHER,
+  "                    context.log_data)\n                return TrashResult.Success\n",
+  "                    context.log_data)\n")],
+  'candidate loop goes on after success')
+F('c01-remove-argument-on-failure', {'C01': ['R01.6']}, [(PUTDIR,
+  "            self.fs.remove_file(paths.trashinfo_path)\n",
+  "            self.fs.remove_file(paths.trashinfo_path)\n            self.fs.remove_file(path)\n")],
+  'failure handler deletes the argument')
+F('c01-copy-instead-of-move', {'C01': ['R01.6', 'R01.7']}, [('trashcli/put/fs/real_fs.py',
+  "        return fs.move(path, dest)", "        import shutil\n        shutil.copytree(path, dest)\n        shutil.rmtree(path)")],
+  'move replaced by copy + delete')
+S('c01-handler-oserror-only', ['C01', 'C17', 'C16'], [(PUTDIR,
+  "        except (IOError, OSError) as error:", "        except OSError as error:")],
+  'IOError is OSError in py3')
+S('c01-inline-move-file', ['C01', 'C18', 'C05'], [(PUTDIR,
+  "            move_file(self.fs, path, paths.backup_copy_path)",
+  "            self.fs.move(os.path.normpath(path), paths.backup_copy_path)")],
+  'move_file inlined')
+
+# ------------------------------------------------------------------ C04
+F('c04-no-probe', {'C04': ['R04.3']}, [(PERSISTER,
+  "            if os.path.exists(path_of_backup_copy(trashinfo_path)):\n                index += 1\n                continue\n", "")],
+  'payload-name-taken probe removed')
+F('c04-no-excl', {'C04': ['R04.1']}, [(FS,
+  "os.O_WRONLY | os.O_CREAT | os.O_EXCL", "os.O_WRONLY | os.O_CREAT | os.O_TRUNC")],
+  'O_EXCL dropped')
+F('c04-write-file', {'C04': ['R04.1'], 'C05': ['R05.1']}, [('trashcli/put/fs/real_fs.py',
+  "    def atomic_write(self, path, content):\n        fs.atomic_write(path, content)",
+  "    def atomic_write(self, path, content):\n        with open(path, 'wb') as f:\n            f.write(content)")],
+  'info written with open(..., "wb")')
+F('c04-check-then-create', {'C04': ['R04.4']}, [(DIRMAKER,
+  "        try:\n            self.fs.makedirs(path, mode)\n        except OSError:\n            if not self.fs.isdir(path):\n                raise",
+  "        if not self.fs.isdir(path):\n            self.fs.makedirs(path, mode)")],
+  'mkdir -p replaced by check-then-create')
+F('c04-no-increment', {'C04': ['R04.5']}, [(PERSISTER,
+  "                                        \"attempt for creating %s failed.\" % trashinfo_path)\n\n            index += 1\n",
+  "                                        \"attempt for creating %s failed.\" % trashinfo_path)\n")],
+  'retry without incrementing the index')
+F('c04-dest-not-from-info', {'C04': ['R04.2'], 'C05': ['R05.1']}, [(PUTDIR,
+  "            move_file(self.fs, path, paths.backup_copy_path)",
+  "            move_file(self.fs, path, os.path.join(os.path.dirname(os.path.dirname(paths.trashinfo_path)), 'files', os.path.basename(path)))")],
+  'payload name taken from the argument instead of the won .trashinfo name')
+S('c04-flags-constant', ['C04'], [(FS,
+  "        return os.open(path, os.O_WRONLY | os.O_CREAT | os.O_EXCL, 0o600)",
+  "        flags = os.O_WRONLY | os.O_CREAT | os.O_EXCL\n        return os.open(path, flags, 0o600)")],
+  'flags through a local')
+S('c04-exist-ok', ['C04', 'C07'], [(DIRMAKER,
+  "        try:\n            self.fs.makedirs(path, mode)\n        except OSError:\n            if not self.fs.isdir(path):\n                raise",
+  "        import os\n        os.makedirs(path, mode, exist_ok=True)")],
+  'makedirs(exist_ok=True)')
